@@ -142,6 +142,7 @@ def transcribe(macro_text, params, scalars=()):
     for pat2 in (r"\(\s*&\s*mut\s*\(\s*\*\s*(%s)\s*\)\s*\)", r"\(\s*&\s*\(\s*\*\s*(%s)\s*\)\s*\)", r"\(\s*&\s*mut\s*\*\s*(%s)\s*\)",
                  r"\(\s*&\s*\*\s*(%s)\s*\)", r"\(\s*\*\s*(%s)\s*\)", r"&\s*\(\s*\*\s*(%s)\s*\)"):
         b = re.sub(pat2 % names, r"\1", b)
+    b = re.sub(r"(?<![\w)\]])\*\s*\(\s*(%s)\s*\)" % names, r"\1", b)
     # `*X` : a read of a scalar behind the pointer becomes the parameter; a write `*X = ..` to a scalar output stays a write
     b = re.sub(r"(?<![\w)\]])\*\s*(%s)\b(?!\s*=(?!=))" % names, r"\1", b)
     b = re.sub(r"\(\s*(%s)\s*\)" % names, r"\1", b)
@@ -252,14 +253,34 @@ def mode_fn(name, k, mt, mode, out="out"):
         ens = ["res.is_some() ==> " + k.get("masklen", valid)]
     else:
         ens = ["res.is_none() ==> final(%s).d@ == old(%s).d@" % (out, out)]
+    # loop variables are matched by loop ordinal: a renamed loop variable renames it in the contract as well
+    ren = {}
+    if k.get("loopvars") is not None:
+        actual = re.findall(r"\bfor\s+(\w+)\s+in\b", transcribe(mt, k["params"], k.get("scalars", ())))
+        if len(actual) == len(k["loopvars"]):
+            for old, new in zip(k["loopvars"], actual):
+                if old != new:
+                    if ren.get(old, new) != new:
+                        raise AnchorLost("loop variables renamed inconsistently")
+                    ren[old] = new
+            spec_text = " ".join(str(x) for lp in k["loops"] for x in ((lp,) if isinstance(lp, str) else lp)) + k.get("post_proof", "")
+            for old, new in ren.items():
+                if re.search(r"(?<![\w.])%s\b" % re.escape(new), spec_text) and new not in k["loopvars"]:
+                    raise AnchorLost("loop variable renamed to `%s`, which the contract already uses for something else" % new)
+
+    def rn(t):
+        if not ren:
+            return t
+        return re.sub(r"(?<![\w.])(%s)\b" % "|".join(map(re.escape, ren)), lambda m_: ren[m_.group(1)], t)
     loops = []
     for lp in k["loops"]:
         head, first, before = (lp, "", "") if isinstance(lp, str) else (tuple(lp) + ("",))[:3]
+        head, first, before = rn(head), rn(first), rn(before)
         if mode == "value":      # the precondition VALID is carried through the loops
             head = head.replace("invariant ", "invariant %s, " % valid.replace("old(%s)" % out, out), 1)
         loops.append((head, first, before))
     return kernel_fn("k_%s_%s" % (name, mode), mt, k["params"], k["sig"], req, ens, loops, scalars=k.get("scalars", ()),
-                     post=(k.get("post_proof", "") + "\n  Some(())"))
+                     post=(rn(k.get("post_proof", "")) + "\n  Some(())"))
 
 
 def add_units(plan, prop, table, path, what, atomic=False, out="out"):
